@@ -205,7 +205,7 @@ func WorkerMain(args []string) int {
 		return 2
 	}
 	defer jf.Close()
-	budget := 120 * time.Second
+	budget := 300 * time.Second
 	if b, ok := p.(CaseBudgeter); ok {
 		budget = b.CaseBudget(tier)
 	}
